@@ -105,7 +105,7 @@ class CppPrepared(object):
         self.states, self.defs, self.tops, self.ref, self.exe, self.outdir = states, defs, tops, ref, exe, outdir
 
 
-def prepare_cpp(states, sanitize=True):
+def prepare_cpp(states, sanitize=True, with_python=False):
     """Compile a batch to a driver executable; bisect on failure.
     Returns (prepared list, rejected list of (state, stage, msg))."""
     prepared, rejected = [], []
@@ -113,9 +113,10 @@ def prepare_cpp(states, sanitize=True):
     def go(sts):
         defs, tops = U.batch_defs(sts)
         text = S.render_prophy(defs)
-        res = T.compile_text(text, outs=('cpp_full',))
+        res = T.compile_text(text, outs=('cpp_full', 'python') if with_python else ('cpp_full',))
         stage = msg = None
         exe = None
+        pymod = None
         if not res.ok:
             stage, msg = 'prophyc', '%s: %s' % (res.exc_type, str(res.exc)[:300])
         else:
@@ -133,7 +134,14 @@ def prepare_cpp(states, sanitize=True):
             go(sts[:mid])
             go(sts[mid:])
             return
-        prepared.append(CppPrepared(sts, defs, tops, ref, exe, res.outdir))
+        if with_python:
+            try:
+                pymod = T.import_generated(res.files['m.py'])
+            except Exception:       # noqa  (C12's business)
+                pymod = None
+        cp = CppPrepared(sts, defs, tops, ref, exe, res.outdir)
+        cp.pymod = pymod
+        prepared.append(cp)
 
     go(list(states))
     return prepared, rejected
@@ -179,6 +187,10 @@ def judge_case(ref, top, v, props, results, cid, spans_le, canon, viol, art, fix
                      art(ename, data, 'encoded_byte_size %d, rules give %d' % (ebs, want)))
         vhex = r.get('vhex')
         if vhex is None:
+            if 'C03' in props and not gbs.startswith('ABSURD') and 'pn' in r and int(r['pn']) > int(gbs):
+                viol('C03', 'cpp|reencode|vector-sized-too-short|d=%+d|%s' % (int(gbs) - int(r['pn']), pyjudge._shape_key(ref, top, None)),
+                     art(ename, data, 'encode<%s>() would return a %s-byte vector while the encoder writes %s bytes' % (
+                         ename, gbs, r['pn'])))
             continue
         got = bytes.fromhex(vhex) if vhex != '-' else b''
         enc[ename] = got
@@ -247,7 +259,7 @@ def judge_batch(job):
     try:
         accepted = [st for st in states if full_generator_accepts(st)]
         out['skipped_design'] = len(states) - len(accepted)
-        prepared, rejected = prepare_cpp(accepted)
+        prepared, rejected = prepare_cpp(accepted, with_python='C03' in props)
         for st, stage, msg in rejected:
             out['rejected'].append((st.key, stage, msg))
         seen = {}
@@ -292,23 +304,50 @@ def judge_batch(job):
                             out['nontrivial'] += 1
                         for ename, e in ENDIANS:
                             cases.append(('%s.%s' % (cid, ename), top, ename, 'dec', le if e == '<' else be))
+                        if getattr(prep, 'pymod', None) is not None:
+                            # what the Python codec wrote, where it differs from the documented bytes
+                            for ename, e in ENDIANS[:2]:
+                                try:
+                                    pyb = T.build(ref, top, v, getattr(prep.pymod, top)()).encode(e)
+                                except Exception:       # noqa  (C01's business)
+                                    continue
+                                if pyb != (le if e == '<' else be):
+                                    cases.append(('%s.%s.py' % (cid, ename), top, ename, 'dec', pyb))
+                                    meta.setdefault('py', {})[(cid, ename)] = pyb
                             if 'C05' in props and ename != 'native':
                                 for op in ops:
                                     cases.append(('%s.%s.%s' % (cid, ename, op), top, ename, op, le if e == '<' else be))
                 results = D.run_driver(prep.exe, cases)
                 out['exec'] += len(cases)
-                for cid, (st, top, v, canon, spans) in meta.items():
+                for cid, mv in meta.items():
+                    if cid == 'py':
+                        continue
+                    st, top, v, canon, spans = mv
                     lay = ref.layout(top)
                     fixed_size = lay.size if lay.kind == R.K_FIXED else None
                     render_ok = None
                     if 'C18' in props and not has_float(ref, top):
                         render_ok = ref.render(top, v)
 
-                    def art(ename, data, detail, st=st, top=top, v=v):
+                    def art(ename, data, detail, st=st, top=top, v=v, cid=cid):
                         a = sse.artefact_for(st, top, ref, prep.defs, v, ename, data, '', detail)
                         a['side'] = 'cpp'
+                        # the cases of the same type run earlier in the same process (for order-dependent failures)
+                        a['history'] = [[c[2], c[3], c[4].hex()] for c in cases if c[1] == top and c[0].split('.')[0] == cid.split('.')[0]
+                                        and int(c[0].split('.')[1]) < int(cid.split('.')[1])][-12:]
                         return a
                     judge_case(ref, top, v, props, results, cid, spans, canon, viol, art, fixed_size, render_ok)
+                    for (pcid, ename), pyb in meta.get('py', {}).items():
+                        if pcid != cid:
+                            continue
+                        r = results.get('%s.%s.py' % (cid, ename)) or {}
+                        if r.get('ok') != '1':
+                            viol('C03', 'cpp|rejects-python-bytes|%s' % pyjudge._shape_key(ref, top, None),
+                                 art(ename, pyb, 'C++ decode<%s> does not accept what the Python codec encoded (%s)' % (
+                                     ename, 'crash' if 'crash' in r else r.get('exc', 'false'))))
+                        elif r.get('vhex') is not None and bytes.fromhex(r['vhex'] if r['vhex'] != '-' else '') != pyb:
+                            viol('C03', 'cpp|reencodes-python-bytes-differently|%s' % pyjudge._shape_key(ref, top, None),
+                                 art(ename, pyb, 'C++ re-encodes the Python bytes as %s' % r['vhex']))
                     if 'C05' in props:
                         for ename, e in ENDIANS[:2]:
                             for op in ops:
@@ -409,6 +448,8 @@ def replay(art, pid):
         be, _ = ref.encode(top, v, '>')
         canon = {'<': le, '>': be}
         cases = []
+        for hi, (hen, hop, hhex) in enumerate(art.get('history') or []):
+            cases.append(('h%d' % hi, top, hen, hop, bytes.fromhex(hhex)))
         ops = [art['op']] if art.get('op') else []
         for ename, e in ENDIANS:
             cases.append(('0.0.%s' % ename, top, ename, 'dec', canon[e]))
